@@ -6,8 +6,13 @@ from concurrent.futures import ThreadPoolExecutor
 ROOT = os.path.dirname(os.path.dirname(os.path.abspath(__file__)))
 COQ = os.path.join(ROOT, "coq")
 CACHE = os.path.join(ROOT, ".cache")
-TARGET = os.path.join(CACHE, "target")
-REPO = "/repo"
+REPO = os.path.abspath(os.environ.get("VERIF_REPO", "/repo"))
+# VERIF_REPO=<scratch copy or worktree of /repo> runs a check against that tree instead (used to try
+# seeded changes without touching /repo): the harness crate is copied with its path dependencies
+# rewritten, and target dir, case files, evidence and replays go under .cache/alt/<name>/.
+ALT = None if REPO == "/repo" else os.path.join(CACHE, "alt", hashlib.sha1(REPO.encode()).hexdigest()[:10])
+TARGET = os.path.join(ALT or CACHE, "target")
+OUT = ALT or ROOT          # where evidence/ and replays/ go
 GUARD = "crux_verif"
 NCPU = 16
 
@@ -140,8 +145,16 @@ def coq_assumptions(prop):
 def harness_build(bins, release=False, crate="harness", timeout=3000, features=None):
     """Rebuild the harness (and with it the crux crates from /repo's working tree, hooks on)."""
     cdir = os.path.join(ROOT, crate)
+    if ALT:
+        adir = os.path.join(ALT, crate)
+        os.makedirs(adir, exist_ok=True)
+        sh("rsync -a --delete --exclude target %s/ %s/" % (cdir, adir))
+        for f in glob.glob(os.path.join(adir, "**", "Cargo.toml"), recursive=True):
+            t = open(f).read().replace('"/repo/', '"%s/' % REPO)
+            open(f, "w").write(t)
+        cdir = adir
     lock = os.path.join(cdir, "Cargo.lock")
-    if not os.path.exists(lock) or crate == "harness" and False:
+    if not os.path.exists(lock):
         shutil.copy(os.path.join(REPO, "Cargo.lock"), lock)
     cmd = "cargo build --offline %s %s" % ("--release" if release else "", " ".join("--bin " + b for b in bins))
     with Lock("cargo-" + crate + ("-rel" if release else "")):
@@ -153,7 +166,7 @@ def harness_build(bins, release=False, crate="harness", timeout=3000, features=N
 def run_case_files(prop, texts, timeout=1500, stack_unlimited=True):
     """texts: list of complete .v sources, each printing with `Eval vm_compute in (...)` one or
     more `list N` values. Evaluated in parallel; returns list of (ok, [list of int lists], raw)."""
-    d = os.path.join(CACHE, "cases", prop)
+    d = os.path.join(ALT or CACHE, "cases", prop)
     shutil.rmtree(d, ignore_errors=True); os.makedirs(d, exist_ok=True)
     paths = []
     for i, t in enumerate(texts):
@@ -203,7 +216,7 @@ class Run:
         self.obligations.append((name, bool(ok), detail))
         return ok
     def replay_path(self, tag):
-        d = os.path.join(ROOT, "replays", self.prop); os.makedirs(d, exist_ok=True)
+        d = os.path.join(OUT, "replays", self.prop); os.makedirs(d, exist_ok=True)
         return os.path.join(d, "%s_%s_%d.json" % (tag, self.tier, self.seed))
     def violation(self, tag, payload, no_input=False):
         p = self.replay_path(tag)
@@ -234,8 +247,8 @@ class Run:
         ev = {"property_id": self.prop, "tier": self.tier, "seed": self.seed, "level": level,
               "coverage": self.cov, "assumptions": self.assumptions,
               "wall_s": round(time.time() - self.t0, 2), "violations": len(self.violations)}
-        os.makedirs(os.path.join(ROOT, "evidence"), exist_ok=True)
-        json.dump(ev, open(os.path.join(ROOT, "evidence", self.prop + ".json"), "w"), indent=1, default=str)
+        os.makedirs(os.path.join(OUT, "evidence"), exist_ok=True)
+        json.dump(ev, open(os.path.join(OUT, "evidence", self.prop + ".json"), "w"), indent=1, default=str)
         for cls, what in known:
             if cls in self.known_seen:
                 print("KNOWN-FINDING: property=%s %s [class %s; e.g. %s]" % (self.prop, what, cls, str(self.known_seen[cls])[:160]))
